@@ -45,6 +45,77 @@ def block_items(n):
     return [n]
 
 
+def gen_dispatch(tool):
+    """How diplomat_tool::gen routes a target name: {name: {"group": [spellings of the same arm], "support": {modules}, "run": {modules}, "extra": [other backend names]}}.
+    Read from the dispatch tables of gen and the helpers it calls: matches whose arms are keyed by string literals (target names) or by the variants of a private
+    backend enum (a name -> variant table plus variant-keyed tables compose)."""
+    gen = tool.fn("diplomat_tool::gen")
+    bodies = C.bodies_inl(tool, C.fn_body(gen), depth=2, exclude=[gen["path"]], max_nodes=3000)
+    name_groups, name2var = [], {}
+    by_key = {}      # key ("lit", name) | ("var", Variant) -> {"support": set, "run": set, "extra": list}
+
+    def pat_keys(p):
+        out = []
+        for q in (p.get("alts") if p.get("k") == "or" else [p]) or []:
+            while isinstance(q, dict) and q.get("k") == "ref":
+                q = q["sub"]
+            if q.get("k") == "lit" and q.get("t") == "str":
+                out.append(("lit", q["v"]))
+            elif q.get("k") == "variant" and q.get("enum") and (q.get("adt") or "").startswith("diplomat_tool::"):
+                out.append(("var", q["v"]))
+        return out
+
+    def effects(body):
+        e = {"support": set(), "run": set(), "extra": [], "vars": set()}
+        for x in C.walk(body):
+            if x.get("k") in ("call", "mcall"):
+                mm = re.match(r"^diplomat_tool::(\w+)::(attr_support|run)$", C.callee(x) or "")
+                if mm:
+                    e["support" if mm.group(2) == "attr_support" else "run"].add(mm.group(1))
+            if x.get("k") == "assign" and any(y.get("k") == "field" and y.get("n") == "other_backend_names" for y in C.walk(list(C.children(x))[0])):
+                e["extra"] += sorted(set(C.str_lits(list(C.children(x))[1])))
+            if x.get("k") in ("def", "call") and (x.get("ctor") or "").startswith("diplomat_tool::") and x.get("k") == "def":
+                e["vars"].add(x["ctor"].split("::")[-1])
+        return e
+    for b_ in bodies:
+        for n, st in C.with_conditions(b_):
+            arms = []
+            if n.get("k") == "match":
+                arms = [(pat_keys(a["pat"]), a["b"]) for a in n["arms"]]
+            elif n.get("k") == "if":
+                c_ = C.strip_keep_macro(n["c"])
+                if isinstance(c_, dict) and c_.get("k") == "let":
+                    arms = [(pat_keys(c_["pat"]), n["t"])]
+            for keys, body in arms:
+                if not keys:
+                    continue
+                e = effects(body)
+                lits = [v for k, v in keys if k == "lit"]
+                if lits and len(lits) == len(keys) and (e["support"] or e["run"] or e["vars"] or e["extra"]):
+                    if lits not in name_groups:
+                        name_groups.append(lits)
+                    if len(e["vars"]) == 1:
+                        for l_ in lits:
+                            name2var[l_] = next(iter(e["vars"]))
+                for k_ in keys:
+                    d = by_key.setdefault(k_, {"support": set(), "run": set(), "extra": []})
+                    d["support"] |= e["support"]
+                    d["run"] |= e["run"]
+                    d["extra"] += [x for x in e["extra"] if x not in d["extra"]]
+    out = {}
+    for grp in name_groups:
+        for nm in grp:
+            d = {"group": grp, "support": set(), "run": set(), "extra": []}
+            for k_ in [("lit", nm)] + ([("var", name2var[nm])] if nm in name2var else []):
+                e = by_key.get(k_, {})
+                d["support"] |= e.get("support", set())
+                d["run"] |= e.get("run", set())
+                d["extra"] += [x for x in e.get("extra", []) if x not in d["extra"]]
+            if d["support"] or d["run"]:      # other string-keyed tables (ABI names, ...) route nothing to a backend
+                out[nm] = d
+    return out
+
+
 def run(ck, facts):
     core, tool, mac = facts.core, facts.tool, facts.macro
     adts = facts.all_adts()
@@ -212,35 +283,18 @@ def run(ck, facts):
     flags = [f["name"] for f in sup["variants"][0]["fields"]]
     ck.expect(set(flags) == set(field_to_local), "R2", "supports/all-flags-destructured", "%d flags" % len(flags), "BackendAttrSupport fields %s are not all reachable through `supports =`" % sorted(set(flags) - set(field_to_local)), C.loc(sup))
     gen = tool.fn("diplomat_tool::gen")
-    tm = [n for n in C.walk(C.fn_body(gen)) if n.get("k") == "match" and C.strip(n["s"]).get("k") == "local" and C.strip(n["s"]).get("n") == "target_language"]
-    maps = []
-    for n in tm:
-        mp = {}
-        for arm in n["arms"]:
-            p = arm["pat"]
-            lits = [p["v"]] if p.get("k") == "lit" else [x["v"] for x in p.get("alts", []) if x.get("k") == "lit"]
-            mods = set()
-            for x in C.calls_in(arm["b"]):
-                cal = C.callee(x) or ""
-                mm = re.match(r"^diplomat_tool::(\w+)::(attr_support|run)$", cal)
-                if mm:
-                    mods.add((mm.group(1), mm.group(2)))
-            for l in lits:
-                mp[l] = mods
-        maps.append(mp)
-    if len(maps) >= 2:
-        sup_map, run_map = maps[0], maps[1]
-        for tgt in sorted(sup_map):
-            s_mod = {m_ for m_, k in sup_map.get(tgt, ()) if k == "attr_support"}
-            r_mod = {m_ for m_, k in run_map.get(tgt, ()) if k == "run"}
-            ck.expect(len(s_mod) == 1 and s_mod == r_mod, "R2", "gen/target-pairing/" + tgt, "%s" % sorted(s_mod), "target `%s` takes attr_support() from %s but runs %s" % (tgt, sorted(s_mod), sorted(r_mod)), C.loc(gen))
-    else:
-        ck.bad("R2", "gen/target-pairing", "cannot find the two matches on target_language in gen", C.loc(gen))
+    disp = gen_dispatch(tool)
+    for tgt in sorted(disp):
+        s_mod, r_mod = disp[tgt]["support"], disp[tgt]["run"]
+        ck.expect(len(s_mod) == 1 and s_mod == r_mod, "R2", "gen/target-pairing/" + tgt, "%s" % sorted(s_mod), "target `%s` takes attr_support() from %s but runs %s" % (tgt, sorted(s_mod), sorted(r_mod)), C.loc(gen))
+    if len(disp) < 7:
+        ck.bad("R2", "gen/target-pairing", "cannot read the target dispatch of gen (%d target names found)" % len(disp), C.loc(gen))
 
     # ---------------- R3 parser
     pf = core.fn("<diplomat_core::ast::attrs::DiplomatBackendAttrCfg as syn::parse::Parse>::parse")
     kw = {}
-    for n in C.walk(C.fn_body(pf)):
+    pf_nodes = [x for b_ in C.bodies_inl(core, C.fn_body(pf), depth=2, exclude=[pf["path"]]) for x in C.walk(b_)]   # the parser and the phase helpers it delegates to
+    for n in pf_nodes:
         if n.get("k") == "if":
             c = C.strip(n["c"])
             lits = [x["v"] for x in C.walk(c) if x.get("k") == "lit" and x.get("t") == "str"]
@@ -253,7 +307,7 @@ def run(ck, facts):
     ok = kw.get("auto") == {"Auto"} and kw.get("not") == {"Not"} and "Any" in kw.get("any", ()) and "All" in kw.get("all", ())
     # any/all share a branch: the inner `if name == "any"` decides
     inner_ok = False
-    for n in C.walk(C.fn_body(pf)):
+    for n in pf_nodes:
         if n.get("k") == "if":
             c = C.strip(n["c"])
             lits = [x["v"] for x in C.walk(c) if x.get("k") == "lit" and x.get("t") == "str"]
@@ -262,7 +316,7 @@ def run(ck, facts):
                 e_c = [x["ctor"].split("::")[-1] for x in C.walk(n["e"]) if x.get("ctor", "").startswith(CFG)]
                 inner_ok = set(t_c) == {"Any"} and set(e_c) == {"All"}
     ck.expect(ok and inner_ok, "R3", "parse/keywords", str({k: sorted(v) for k, v in kw.items()}), "keyword -> constructor mapping changed: %s" % {k: sorted(v) for k, v in kw.items()}, C.loc(pf))
-    all_ctors = [x["ctor"].split("::")[-1] for x in C.walk(C.fn_body(pf)) if x.get("ctor", "").startswith(CFG + "::")]
+    all_ctors = [x["ctor"].split("::")[-1] for x in pf_nodes if x.get("ctor", "").startswith(CFG + "::")]
     ck.expect(set(all_ctors) == expected, "R3", "parse/constructs-all", str(sorted(set(all_ctors))), "parser constructs %s, evaluator interprets %s" % (sorted(set(all_ctors)), sorted(expected)), C.loc(pf))
 
     # ---------------- R4 disable honoured
@@ -279,11 +333,17 @@ def run(ck, facts):
     ck.expect(okd, "R4", "lower_all_methods/disable-before-lower", "`if attrs.disable { continue }` precedes lower_method", "disabled methods are no longer skipped before lowering", C.loc(lam))
     # backends: loops over all_types()/all_traits()
     nloops = 0
-    for f in tool.fn_list:
-        if f.get("dk") == "Closure" or "hir" not in f:
+    run_fns, seen_run = [], set()
+    for f0 in tool.fn_list:
+        if f0.get("dk") == "Closure" or "hir" not in f0:
             continue
-        if not re.search(r"^diplomat_tool::(c|cpp|js|dart|kotlin|nanobind|demo_gen)(::\w+)*::(run|gen|run_gen)$", C.norm_path(f["path"])):
+        if not re.search(r"^diplomat_tool::(c|cpp|js|dart|kotlin|nanobind|demo_gen)(::\w+)*::(run|gen|run_gen)$", C.norm_path(f0["path"])):
             continue
+        for g_ in C.fns_inl(tool, f0, depth=1):       # the driver and the phase functions it is split into
+            if g_["path"] not in seen_run and re.search(r"^diplomat_tool::(c|cpp|js|dart|kotlin|nanobind|demo_gen)::", C.norm_path(g_["path"])):
+                seen_run.add(g_["path"])
+                run_fns.append(g_)
+    for f in run_fns:
         for n in C.walk(C.fn_body(f)):
             if n.get("k") != "for":
                 continue
@@ -552,13 +612,8 @@ def run(ck, facts):
     adders = sum(1 for f in core.fn_list if "hir" in f and f["path"].startswith("diplomat_core::ast::") for n in C.walk(C.fn_body(f)) if n.get("k") == "mcall" and n.get("m") in ("add_attrs", "add_attr"))
     ck.expect(adders >= 5, "R8", "core::ast/add_attrs-sites", "%d add_attrs sites" % adders, "only %d add_attrs/add_attr call sites found in core::ast (anchor lost)" % adders)
     extra = {}
-    for n in C.walk(C.fn_body(gen)):
-        if n.get("k") == "match":
-            for arm in n["arms"]:
-                tg = [arm["pat"].get("v")] + [a_.get("v") for a_ in (arm["pat"].get("alts") or [])] if arm["pat"].get("k") in ("lit", "or") else []
-                tg = [t_ for t_ in tg if isinstance(t_, str)]
-                for x in C.walk_inl(tool, arm["b"], 1, exclude=[gen["path"]]):
-                    if x.get("k") == "assign" and any(y.get("k") == "field" and y.get("n") == "other_backend_names" for y in C.walk(list(C.children(x))[0])):
-                        extra[tuple(sorted(tg))] = sorted(set(C.str_lits(list(C.children(x))[1])))
+    for nm_, d_ in gen_dispatch(tool).items():
+        if d_["extra"]:
+            extra[tuple(sorted(d_["group"]))] = sorted(d_["extra"])
     ck.expect(extra == {("demo_gen",): ["js"]}, "R8", "gen/other_backend_names", str(extra),
               "extra backend names are %s (triaged: demo_gen also answers to `js`): conditions written for one backend now also select another backend's output" % extra, C.loc(gen))
